@@ -58,6 +58,9 @@ CHECKS = {
  "C19": ("model_checking", "exhaustive enumeration of request sets x LICENSES states x per-identifier network outcomes (deviation-bounded) + all 2-command histories, against a stub network",
          "every request set (<=3 of 6 identifiers) x 3 LICENSES/ states x every assignment of 6 failure kinds to <=1 (quick) / <=2 (thorough) identifiers, invocation directory x VCS x --root, 13 option variants, every ordered pair of 6 download commands: only LICENSES/<id>.txt or --output created, nothing pre-existing altered, no partial file, exit status reflects failures, no URL for LicenseRef-, ID+ fetched as ID, lint clean after --all",
          "network replaced by a stub of urllib.request.urlopen that records URLs", "4/C19"),
+ "C15": ("model_checking", "explicit-state BFS over command-line histories with content de-duplication; per-transition snapshot invariant",
+         "breadth-first search over all sequences (<=2 quick, <=3 thorough) of a 26-entry menu covering every subcommand from 5 initial trees (plain, Git with ignored/untracked files, symlinks pointing outside the project, dep5, read-only files); after each transition a content + mode + mtime snapshot of the project and of a sentinel directory outside it is compared with what the command is documented to touch",
+         ".git internals not compared; network stubbed; pool virtual", "4/C15"),
 }
 PENDING_REASON = "check not built yet in this session (design in DESIGN.md section 4); not claimed until its machinery exists"
 
